@@ -142,6 +142,12 @@ def _call_type(ip, t, args, kw):
         v = args[0]
         if isinstance(v, Rec):
             return v.cls
+        if isinstance(v, list) or (isinstance(v, SeqV) and v.kind == "list"):
+            return _TYPES["list"]
+        if isinstance(v, tuple) or (isinstance(v, SeqV) and v.kind == "tuple"):
+            return _TYPES["tuple"]
+        if isinstance(v, I.NS):
+            return _TYPES["object"]  # a ghost object: some class that is none of the builtin containers
         raise EngineError("type() of non-record")
     raise EngineError(f"call of type {n}")
 
